@@ -502,6 +502,13 @@ func (e *cenv) exec(m map[string]string) string {
 			}
 			seen = fmt.Sprintf("%s,%s,%s,%s", dl, b01(ctx.Value(ctxKey{}) != nil), ctxErrStr(ctx.Err()), b01(ctx == caller))
 			defer func() { after = ctxErrStr(ctx.Err()) }()
+			if mid := m["mid"]; mid != "" && !e.passthru {
+				// the operator changes a setting while this call is in flight
+				if kv := strings.SplitN(mid, ":", 2); len(kv) == 2 {
+					applyCfg(&e.base, map[string]string{kv[0]: kv[1]})
+					e.c.SetConfigThreadSafe(e.base)
+				}
+			}
 			return act(run, ctx)
 		}
 	}
@@ -713,6 +720,20 @@ func (circuitSuite) Gen(r *rand.Rand, i int) Case {
 			if rc {
 				tag("cancel-during-run")
 			}
+			mid := ""
+			if run != "none" && pt == "" && r.Intn(10) == 0 {
+				// a reconfiguration that lands while the call is in flight (performed by the run function itself)
+				k := pick(r, "to", "to", "fo", "fo", "fc", "ii", "fbd", "fbmc", "mc", "dis")
+				v := fmt.Sprint(r.Intn(2))
+				switch k {
+				case "to":
+					v = fmt.Sprint(tos[r.Intn(len(tos))])
+				case "fbmc", "mc":
+					v = fmt.Sprint(lim())
+				}
+				mid = fmt.Sprintf(" mid=%s:%s", k, v)
+				tag("mid-call-reconfig")
+			}
 			via := ""
 			fc := r.Intn(10) == 0
 			if fb == "none" && r.Intn(2) == 0 {
@@ -725,7 +746,7 @@ func (circuitSuite) Gen(r *rand.Rand, i int) Case {
 				tag("via-go")
 			}
 			c.Ops = append(c.Ops, fmt.Sprintf("exec ctx=%s run=%s radv=%d rcancel=%s fb=%s fadv=%d fcancel=%s ans=%d%d%d%d%s",
-				ctx, run, radv, b01(rc), fb, r.Int63n(5), b01(fc), r.Intn(2), r.Intn(2)*r.Intn(2)*r.Intn(2), r.Intn(2), r.Intn(2), via))
+				ctx, run, radv, b01(rc), fb, r.Int63n(5), b01(fc), r.Intn(2), r.Intn(2)*r.Intn(2)*r.Intn(2), r.Intn(2), r.Intn(2), via+mid))
 		case x < 76:
 			c.Ops = append(c.Ops, "open")
 			tag("manual-open")
